@@ -141,7 +141,7 @@ def _on_alarm(signum, frame):
     raise RunTimeout()
 
 
-RUN_LIMIT_S = float(os.environ.get('VERIF_RUN_LIMIT_S', '40'))
+RUN_LIMIT_S = float(os.environ.get('VERIF_RUN_LIMIT_S', '20'))     # default; a property module may set RUN_LIMIT_S itself
 _MEM_LIMITED = [False]
 
 
@@ -169,13 +169,14 @@ def run_quiet(prop, scenario):
     import signal
     _limit_memory()
     old = signal.signal(signal.SIGALRM, _on_alarm)
-    signal.setitimer(signal.ITIMER_REAL, RUN_LIMIT_S)
+    limit = float(getattr(prop, 'RUN_LIMIT_S', RUN_LIMIT_S))
+    signal.setitimer(signal.ITIMER_REAL, limit)
     try:
         with contextlib.redirect_stdout(_Sink()):
             return prop.run(scenario)
     except RunTimeout:
         res = Result()
-        res.violate('hang', limit_s=RUN_LIMIT_S)
+        res.violate('hang', limit_s=limit)
         res.obs.append('hang')
         return res
     finally:
@@ -289,7 +290,7 @@ def shrink(prop, scenario, clause, max_exec=600, max_s=45.0):
 
 
 def write_replay(prop, seed, k, clause, scenario, detail, shrunk_from=None):
-    d = os.path.join(VERIF, 'replays')
+    d = os.environ.get('VERIF_REPLAY_DIR') or os.path.join(VERIF, 'replays')
     os.makedirs(d, exist_ok=True)
     tag = hashlib.sha256(clause.encode()).hexdigest()[:6]
     path = os.path.join(d, '%s-%d-%d-%s.json' % (prop.ID, seed, k, tag))
@@ -404,11 +405,6 @@ def run_check(prop_name, tier, replay=None, digests=None, quiet=False, runs_over
         print('HARNESS-ERROR property=%s worker pool failed' % prop.ID)
         return 2
 
-    ok, why, st_info = selftest(prop, seed, tier, st_ks, agg.digests)
-    if not ok:
-        print('HARNESS-ERROR property=%s determinism self-test failed: %s' % (prop.ID, why))
-        return 2
-
     # violations: shrink, write replay, confirm in a fresh interpreter
     agg.failing.sort()
     reported = []
@@ -433,6 +429,17 @@ def run_check(prop_name, tier, replay=None, digests=None, quiet=False, runs_over
                 print('HARNESS-ERROR property=%s replay %s did not reproduce in a fresh interpreter' % (prop.ID, path))
         if len(reported) >= 5:
             break
+
+    # determinism self-test (after the violations, so that a confirmed violation is reported even if the tree under
+    # test is so broken that the self-test itself runs into hangs)
+    try:
+        ok, why, st_info = selftest(prop, seed, tier, st_ks, agg.digests)
+    except Exception as e:      # e.g. a fresh interpreter that exceeds its time limit
+        ok, why, st_info = False, 'self-test could not be completed: %r' % (e,), {}
+    if not ok:
+        print('HARNESS-ERROR property=%s determinism self-test failed: %s' % (prop.ID, why))
+        if not reported:
+            return 2
 
     wall = time.time() - t0
     completed = agg.runs
@@ -473,8 +480,9 @@ def run_check(prop_name, tier, replay=None, digests=None, quiet=False, runs_over
             'violations_reported': reported,
         },
     }
-    os.makedirs(os.path.join(VERIF, 'evidence'), exist_ok=True)
-    with open(os.path.join(VERIF, 'evidence', prop.ID + '.json'), 'w') as f:
+    evdir = os.environ.get('VERIF_EVIDENCE_DIR') or os.path.join(VERIF, 'evidence')   # registered commands never set it
+    os.makedirs(evdir, exist_ok=True)
+    with open(os.path.join(evdir, prop.ID + '.json'), 'w') as f:
         f.write(json.dumps(ev, indent=1, sort_keys=True, default=_jdefault))
     print('property=%s runs=%d/%d discarded=%d evals=%d nontrivial=%d states=%d interleavings=%d wall=%.1fs faults=%s' %
           (prop.ID, completed, n_runs, agg.discarded, agg.evals, len(agg.nontrivial), len(agg.states),
